@@ -532,10 +532,44 @@ def pivots_rcond(K):
     return min(piv) / max(piv)
 
 
+def diag_pivot_stability(K):
+    """symmetric elimination with the pivot order of Eigen's LDLT (largest remaining |diagonal| first): returns
+    (min |pivot| / max |pivot|, growth of the Schur complements relative to max |K|); (0, inf) when the remaining
+    diagonal vanishes before the matrix is exhausted (LDLT stops there)"""
+    K = [list(r) for r in K]
+    R = list(range(len(K)))
+    if not R:
+        return 1.0, 1.0
+    top = max(abs(t) for r in K for t in r)
+    if top == 0.0:
+        return 0.0, math.inf
+    seen = top
+    piv = []
+    while R:
+        i = max(R, key=lambda j: abs(K[j][j]))
+        d = K[i][i]
+        if d == 0.0:
+            return 0.0, math.inf
+        piv.append(abs(d))
+        R.remove(i)
+        for r in R:
+            f = K[r][i] / d
+            if f != 0.0:
+                for c_ in R:
+                    K[r][c_] -= f * K[i][c_]
+                    seen = max(seen, abs(K[r][c_]))
+    return min(piv) / max(piv), seen / top
+
+
+NEWTON_GROWTH = 1e3
+
+
 def kkt_rcond(N, x, u):
-    """(rcond of H = Q - G' diag(u/g) G, rcond of K = [[H, A'], [A, 0]]). Eigen's LDLT pivots on the diagonal only: with a
-    singular H and p > 0 it stops at the zero block although K is regular (its documented domain is semidefinite
-    matrices), so the contract `K z = r` can only be expected of it when H itself is regular."""
+    """(1 when diagonal pivoting is stable on K = [[Q - G' diag(u/g) G, A'], [A, 0]] else 0, rcond of K under complete
+    pivoting). Eigen's LDLT pivots on the diagonal only: with a singular or small H and p > 0 it stops at the zero block or
+    divides by a tiny pivot although K is regular (its documented domain is semidefinite matrices), so the contract
+    `K z = r` can only be expected of it when that elimination is stable on K and on H alone (H regular: the positive pivots
+    come first, then the negative definite Schur complement; pivot ratio >= NEWTON_RCOND, growth <= NEWTON_GROWTH)."""
     Q, cc, A, b, G, h = N["Q"], N["c"], N["A"], N["b"], N["G"], N["h"]
     n, p, m = len(cc), len(b), len(h)
     g = [math.fsum([G[i][k] * x[k] for k in range(n)] + [-h[i]]) for i in range(m)]
@@ -546,7 +580,10 @@ def kkt_rcond(N, x, u):
             K[j][k] = (Q[j][k] if Q is not None else 0.0) - math.fsum(G[i][j] * w[i] * G[i][k] for i in range(m))
         for i in range(p):
             K[j][n + i] = A[i][j]; K[n + i][j] = A[i][j]
-    return pivots_rcond([r[:n] for r in K[:n]]), pivots_rcond(K)
+    ratio, growth = diag_pivot_stability(K)
+    ratioH, growthH = diag_pivot_stability([r[:n] for r in K[:n]])
+    ok = ratio >= NEWTON_RCOND and growth <= NEWTON_GROWTH and ratioH >= NEWTON_RCOND and growthH <= NEWTON_GROWTH
+    return (1.0 if ok else 0.0), pivots_rcond(K)
 
 
 def relmax(rows):
@@ -668,9 +705,22 @@ def monitor_start(c, r):
     if not any(x0):
         return None
     MON_STATS["default-starts-found"] += 1
-    s = [a - hh for a, hh in zip(xmv(frm(S["G"]), frv(x0)), frv(S["h"]))]
-    if any(t >= 0 for t in s):
-        return f"[default-start] make_strictly_feasible returned a point with max(G x0 - h) = {float(max(s)):.3e} >= 0"
+    # the code accepts the point on the FLOAT value of `(G x0 - h).maxCoeff() < 0`: a row counts as violated when its exact value
+    # is >= 0 and the float evaluation is exact in any summation order (all terms and partial sums are integers below 2^53 in
+    # units of the common power-of-two denominator), or when it exceeds 1e-12 x the magnitude of its terms
+    G = frm(S["G"]); xq = frv(x0); hq = frv(S["h"])
+    for row, hh in zip(G, hq):
+        terms = [a * t for a, t in zip(row, xq)] + [-hh]
+        val = sum(terms, Fraction(0))
+        if val < 0:
+            continue
+        mag = sum((abs(t) for t in terms), Fraction(0))
+        den = 1
+        for t in terms:
+            den = max(den, t.denominator)
+        exact_in_float = mag * den < 2 ** 53
+        if exact_in_float or val > Fraction(1, 10 ** 12) * mag:
+            return f"[default-start] make_strictly_feasible returned a point with a row of G x0 - h = {float(val):.3e} >= 0"
     return None
 
 
@@ -723,12 +773,14 @@ def oracle(aug, res):
         dev = max(abs(a - bb) for a, bb in zip(xmv(Ps["A"], x), Ps["b"]))
         lim = 1e-6 * (1 + max(abs(float(t)) for t in Ps["b"]) + (0.0 if default else fro(Ps["A"])))
         if dev > lim:
-            return f"[{key_of(rk, 'feas-eq')}] converged with |Ax-b|_inf = {float(dev):.3e} > {lim:.3e}"
+            return (f"[{key_of(rk, 'feas-eq')}] converged with |Ax-b|_inf = {float(dev):.3e} > {lim:.3e} "
+                    f"(|x|_inf = {max(abs(t) for t in r['x']):.3e})")
     if Ps["h"]:
         dev = max(a - hh for a, hh in zip(xmv(Ps["G"], x), Ps["h"]))
         lim = 1e-6 * (1 + max(abs(float(t)) for t in Ps["h"]) + (0.0 if default else fro(Ps["G"])))
         if dev > lim:
-            return f"[{key_of(rk, 'feas-ineq')}] converged with max(Gx-h) = {float(dev):.3e} > {lim:.3e}"
+            return (f"[{key_of(rk, 'feas-ineq')}] converged with max(Gx-h) = {float(dev):.3e} > {lim:.3e} "
+                    f"(|x|_inf = {max(abs(t) for t in r['x']):.3e})")
     # (3) reported objective
     fx = xobj(Ps["Q"], Ps["c"], x)
     mag = sum(abs(a * b) for a, b in zip(Ps["c"], x))
@@ -1352,6 +1404,11 @@ def distribution(ops):
         rk = next((w for w in t if w in RKINDS), "?")
         for k in (f"kind/{t[2]}", f"source/{src}", f"restatement/{rk}", f"n/{n}", "ineq/none" if m == 0 else "ineq/some"):
             d[k] = d.get(k, 0) + 1
+    # what the comparator and the run-time monitors actually did in this process (called after the run)
+    for k, v in CMP_STATS.items():
+        d["compared/" + k] = v
+    for k, v in MON_STATS.items():
+        d["monitor/" + k] = v
     return d
 
 
@@ -1369,6 +1426,14 @@ def stage2_failed_at_end(aug):
 def classify(op, kind, detail):
     if kind == "oracle" and detail.startswith("["):
         key = detail[1:detail.index("]")]
+        if (key.endswith("feas-eq") or key.endswith("feas-ineq")) and "|x|_inf = " in detail:
+            # one input class whatever the restatement: the iterate drifted to |x| >= 1e12 along a flat direction, where the
+            # float residuals `A x - b`, `G x - h` of `program_t::feasible` / `done` are pure cancellation
+            try:
+                if float(detail.split("|x|_inf = ")[1].split(")")[0]) >= 1e12:
+                    return "feasibility:huge-iterate-cancellation"
+            except ValueError:
+                pass
         if key.endswith("reported-fx") and stage2_failed_at_end(op):
             # one call site whatever the restatement: fx/eta/residuals of the last trial point are returned with the old x
             return "reported-fx:stage2-failed-trial-state"
